@@ -35,11 +35,12 @@ Definition flatten (mag : nat -> list ascii) (s : txt) : list ascii :=
 
 (** ** C tokens *)
 Inductive tok :=
-| TId (s : list ascii) | TNum (s : list ascii) | TMag (i : nat) | TOp (c : ascii) | TBad.
+| TId (s : list ascii) | TNum (s : list ascii) | TMag (i : nat) | TOp (c : ascii) | TGe | TBad.
 
 Definition is_opchar (c : ascii) : bool :=
   match c with
-  | "+"%char | "-"%char | "*"%char | "/"%char | "("%char | ")"%char | ","%char => true
+  | "+"%char | "-"%char | "*"%char | "/"%char | "("%char | ")"%char | ","%char
+  | "?"%char | ":"%char | ">"%char | "["%char | "]"%char => true
   | _ => false
   end.
 Definition is_idstart (c : ascii) : bool := is_upper c || is_lower c || Ascii.eqb c "_"%char.
@@ -91,6 +92,7 @@ Fixpoint lex_go (st : nat) (buf : list ascii) (s : txt) (acc : list tok) : list 
                   match r with
                   | C d :: _ =>
                       if is_sign c && Ascii.eqb c d then lex_go 4 [] r (TBad :: acc')   (* ++ or -- *)
+                      else if Ascii.eqb c ">"%char && Ascii.eqb d "="%char then lex_go 4 [] r (TGe :: acc')
                       else lex_go 0 [] r (TOp c :: acc')
                   | _ => lex_go 0 [] r (TOp c :: acc')
                   end
@@ -105,9 +107,38 @@ Inductive ex :=
 | ELit (s : list ascii) | EMag (i : nat) | EVar (s : list ascii)
 | ENeg (e : ex) | EPos (e : ex)
 | EBin (op : ascii) (a b : ex)
-| ECall (f : list ascii) (args : list ex).
+| ECall (f : list ascii) (args : list ex)
+| EIdx (a : list ascii) (i : ex)                 (* a[i] *)
+| ERel (ge : bool) (a b : ex)                    (* a >= b / a > b *)
+| ECond (c a b : ex).                            (* c ? a : b *)
 
-Fixpoint pexpr (n : nat) (ts : list tok) : option (ex * list tok) :=
+Fixpoint pcond (n : nat) (ts : list tok) : option (ex * list tok) :=
+  match n with
+  | O => None
+  | S n =>
+      match prel n ts with
+      | Some (c, TOp "?"%char :: r) =>
+          match pcond n r with
+          | Some (a, TOp ":"%char :: r') =>
+              match pcond n r' with Some (b, r'') => Some (ECond c a b, r'') | None => None end
+          | _ => None
+          end
+      | other => other
+      end
+  end
+with prel (n : nat) (ts : list tok) : option (ex * list tok) :=
+  match n with
+  | O => None
+  | S n =>
+      match pexpr n ts with
+      | Some (a, TOp ">"%char :: r) =>
+          match pexpr n r with Some (b, r') => Some (ERel false a b, r') | None => None end
+      | Some (a, TGe :: r) =>
+          match pexpr n r with Some (b, r') => Some (ERel true a b, r') | None => None end
+      | other => other
+      end
+  end
+with pexpr (n : nat) (ts : list tok) : option (ex * list tok) :=
   match n with
   | O => None
   | S n =>
@@ -172,9 +203,14 @@ with pprimary (n : nat) (ts : list tok) : option (ex * list tok) :=
           | Some (args, TOp ")"%char :: r') => Some (ECall f args, r')
           | _ => None
           end
+      | TId v :: TOp "["%char :: r =>
+          match pcond n r with
+          | Some (e, TOp "]"%char :: r') => Some (EIdx v e, r')
+          | _ => None
+          end
       | TId v :: r => Some (EVar v, r)
       | TOp "("%char :: r =>
-          match pexpr n r with
+          match pcond n r with
           | Some (e, TOp ")"%char :: r') => Some (e, r')
           | _ => None
           end
@@ -185,7 +221,7 @@ with pargs (n : nat) (ts : list tok) : option (list ex * list tok) :=
   match n with
   | O => None
   | S n =>
-      match pexpr n ts with
+      match pcond n ts with
       | Some (e, TOp ","%char :: r) =>
           match pargs n r with Some (es, r') => Some (e :: es, r') | None => None end
       | Some (e, r) => Some ([e], r)
@@ -194,7 +230,7 @@ with pargs (n : nat) (ts : list tok) : option (list ex * list tok) :=
   end.
 
 Definition parse_toks (ts : list tok) : option ex :=
-  match pexpr (10 * List.length ts + 10) ts with
+  match pcond (10 * List.length ts + 10) ts with
   | Some (e, []) => Some e
   | _ => None
   end.
